@@ -443,15 +443,15 @@ func runLCase(c LCase, r *runlog.R) error {
 		}
 		asserted++
 		if e := checkError(opErr, strings.Join(addr, "."), c.Meta); e != nil {
-			// N-C14-1: when the resolution of a dynamic setting fails with an
-			// error that is typed already, CountField hands it out as it is
+			// D58: when the resolution of a dynamic setting fails with an
+			// error that is typed already, CountField handed it out as it was
 			// ("cyclic reference detected for key: '<other member>'",
 			// "required 'object', but found 'string' in field '<the primitive
 			// passed through>'": another setting, no source) where the getters
 			// wrap it. The class (count on an unresolvable expression) is
 			// constructed away only while that finding is open.
-			if dyn := c.VarExp && n.K == "str" && strings.Contains(n.S, "$"); dyn && op.Op == "count" && avoid("N-C14-1") {
-				r.Excluded("N-C14-1")
+			if dyn := c.VarExp && n.K == "str" && strings.Contains(n.S, "$"); dyn && op.Op == "count" && avoid("D58") {
+				r.Excluded("D58")
 				continue
 			}
 			return fmt.Errorf("%s: %v\n tree %s", what, e, show(c.Tree))
@@ -488,4 +488,4 @@ var subLow = runlog.Register(&runlog.Sub[LCase]{
 	Run:  runLCase,
 })
 
-func TestLowLevel(t *testing.T) { subLow.Check(t, 100000, 2000000) }
+func TestLowLevel(t *testing.T) { subLow.Check(t, 80000, 2000000) }
